@@ -15,7 +15,7 @@ use vpmodel::spec::{mono, ChainSpec};
 pub const DEF: PropDef = PropDef {
     id: "C09",
     level: "exploration",
-    rule: "part 'complete': consistent chains on all 8 coins (real genesis block for 7; NoteBlockchain only with --start>=1) whose blocks hold 1..300 txs covering every merkle tree shape class (powers of two, 2^k+-1, odd at several levels), any --start/--end: with --verify the run must exit 0 and produce exactly the output of the run without --verify. part 'faults': one fault operator applied to block h: single-bit flip in (a) non-witness tx bytes, (b) the merkle field, (c) the prev field; (d) block replaced by a block of a foreign chain; (e) another coin's genesis block at height 0; (f) synthetic block at height 0. If h is in the processed range the run must exit non-zero, name no other height than h in 'Error at height', and leave no final-named file; if h is outside the range the run must succeed with unchanged output. Non-trivial = fault at h>start (prev taken from the index), at h==start>0 (retained start-1 record), or a consistent block with >=3 txs; distinct by (tree-shape class, fault kind, position class, coin).",
+    rule: "part 'complete': consistent chains on all 8 coins (real genesis block for 7; NoteBlockchain only with --start>=1) whose blocks hold 1..300 txs covering every merkle tree shape class (powers of two, 2^k+-1, odd at several levels), any --start/--end: with --verify the run must exit 0 and produce exactly the output of the run without --verify. part 'faults': one fault operator applied to block h: single-bit flip in (a) non-witness tx bytes, (b) the merkle field, (c) the prev field; (d) block replaced by a block of a foreign chain or by a copy of the coin's own genesis block; (e) another coin's genesis block at height 0; (f) synthetic block at height 0. If h is in the processed range the run must exit non-zero, name no other height than h in 'Error at height', and leave no final-named file; if h is outside the range the run must succeed with unchanged output. Non-trivial = fault at h>start (prev taken from the index), at h==start>0 (retained start-1 record), or a consistent block with >=3 txs; distinct by (tree-shape class, fault kind, position class, coin).",
     assumptions: &["header fields other than merkle root and prev hash are not claimed by the statement and are not faulted", "fault cases use legacy transactions and non-AuxPoW blocks so that every tx byte is covered by a txid"],
     run,
     replay,
@@ -29,6 +29,8 @@ pub enum FaultKind {
     ForeignBlock,
     WrongGenesis,
     SyntheticGenesis,
+    /// block h >= 1 replaced by a copy of the coin's real genesis block
+    GenesisCopy,
 }
 
 #[derive(Clone, Debug, Serialize, Deserialize)]
@@ -71,7 +73,7 @@ fn chain_cfg(tier: Tier, faults: bool) -> gen::ChainCfg {
 
 pub fn strategy(tier: Tier, faults: bool) -> BS<Case> {
     let fault = if faults {
-        (prop_oneof![4 => Just(FaultKind::TxBit), 3 => Just(FaultKind::MerkleBit), 3 => Just(FaultKind::PrevBit), 2 => Just(FaultKind::ForeignBlock), 1 => Just(FaultKind::WrongGenesis), 1 => Just(FaultKind::SyntheticGenesis)], any::<u16>(), any::<u32>()).prop_map(|(kind, h, bit)| Some(Fault { kind, h, bit })).boxed()
+        (prop_oneof![4 => Just(FaultKind::TxBit), 3 => Just(FaultKind::MerkleBit), 3 => Just(FaultKind::PrevBit), 2 => Just(FaultKind::ForeignBlock), 1 => Just(FaultKind::WrongGenesis), 1 => Just(FaultKind::SyntheticGenesis), 1 => Just(FaultKind::GenesisCopy)], any::<u16>(), any::<u32>()).prop_map(|(kind, h, bit)| Some(Fault { kind, h, bit })).boxed()
     } else {
         Just(None).boxed()
     };
@@ -139,7 +141,7 @@ pub fn check(c: &Case) -> Verdict {
     if let Some(f) = &c.fault {
         let hi = match f.kind {
             FaultKind::WrongGenesis | FaultKind::SyntheticGenesis => 0usize,
-            FaultKind::PrevBit | FaultKind::ForeignBlock => {
+            FaultKind::PrevBit | FaultKind::ForeignBlock | FaultKind::GenesisCopy => {
                 if n < 2 {
                     return Verdict::Pass(Pass::default());
                 }
@@ -171,6 +173,13 @@ pub fn check(c: &Case) -> Verdict {
                     *bytes = fb.ser();
                     desc = "block replaced by a foreign, self-consistent block".into();
                 }
+                FaultKind::GenesisCopy => match genesis_block(coin) {
+                    Some(g) => {
+                        *bytes = g.ser();
+                        desc = "block replaced by a copy of the coin's genesis block".into();
+                    }
+                    None => return Verdict::Pass(Pass::default()),
+                },
                 FaultKind::WrongGenesis => desc = "another coin's genesis block at height 0".into(),
                 FaultKind::SyntheticGenesis => desc = "synthetic block at height 0".into(),
             }
